@@ -332,7 +332,11 @@ def m_vec_extend(I, st, call):
     else:
         nl = v.len + c
     within = v.cap is not None and st.entails(v.cap - nl)
-    I.write(st, p, VecV(nl, v.cap if within else None, None, v.gen if within else I.newgen()))
+    tag = None
+    src = call.args[1]
+    if isinstance(src, SliceV) and v.len.is_const() and v.len.c == 0:
+        tag = ("slice", src.base, src.off, src.len)     # an empty vector extended by a slice is a copy of that slice
+    I.write(st, p, VecV(nl, v.cap if within else None, tag, v.gen if within else I.newgen()))
     return [(st, UNIT)]
 
 
@@ -1006,6 +1010,11 @@ def m_skip_next(I, st, call):
     if not isinstance(ref, RefV):
         return None
     it = I.read(st, ref.place)
+    if getattr(I, "precise_chunks", False) and isinstance(it, OpaqueV) and it.get("iter") == "chunks" and isinstance(it.get("chunk"), Aff) \
+            and isinstance(it.get("src_len"), Aff) and not [a for a in it.attrs if a[0] == "adapt"]:
+        r = chunks_next(I, st, call, ref, it)
+        if r is not None:
+            return r
     if isinstance(it, OpaqueV) and it.get("iter") == "chunks":
         src_len, chunk, skip = it.get("src_len"), it.get("chunk"), it.get("skip")
         taken = it.get("taken", 0)
@@ -1067,6 +1076,11 @@ def m_next(I, st, call):
             call.args = [it] + list(call.args[1:])
             return m_chars_next(I, st, call)
         ref, it = it, inner
+    if getattr(I, "precise_chunks", False) and isinstance(it, OpaqueV) and it.get("iter") == "chunks" and isinstance(it.get("chunk"), Aff) \
+            and isinstance(it.get("src_len"), Aff) and isinstance(ref, RefV) and not [a for a in it.attrs if a[0] == "adapt"]:
+        r = chunks_next(I, st, call, ref, it)
+        if r is not None:
+            return r
     if isinstance(it, OpaqueV) and isinstance(it.get("last_key"), Aff) and "btree" in call.path:
         dt = call.dest_ty
         item_ty = dt[2][0] if dt and dt[0] == "adt" and dt[2] else None
@@ -1090,6 +1104,60 @@ def m_next(I, st, call):
                     out.append((s2, mk_option(I, StructV([RefV(Place(key), False), val]), dt)))
                 return out
     return generic_next(I, st, call)
+
+
+def chunks_next(I, st, call, ref, it):
+    """[T]::chunks(size) (optionally .skip(n)): the k-th item is src[k*size .. min((k+1)*size, len)]; None once k*size >= len"""
+    size, L = it.get("chunk"), it.get("src_len")
+    off = it.get("cur_off")
+    if off is None:
+        n = it.get("skip")
+        if n is None:
+            off = Aff.const(0)
+        elif n.is_const():
+            off = size.scale(n.c)
+        elif size.is_const():
+            off = n.scale(size.c)
+        else:
+            nl, nh = st.range(n)
+            if nl <= 0 <= nh and nl != nh:
+                # a product is only tracked as an opaque symbol: keep the case 'nothing skipped' exact
+                out = []
+                sa = st.copy()
+                sa.add_eq(n, Aff.const(0))
+                if not sa.dead:
+                    I.write(sa, ref.place, it.with_(cur_off=Aff.const(0)))
+                    out.extend(chunks_next(I, sa, call, ref, it.with_(cur_off=Aff.const(0))))
+                st.add_fact(n - 1)
+                if st.dead:
+                    return out
+                rest = chunks_next(I, st, call, ref, it)
+                return None if rest is None else out + rest
+            sl, sh = st.range(size)
+            x, y = (n, size) if repr(n) <= repr(size) else (size, n)
+            cands = [nl * sl, nl * sh, nh * sl, nh * sh] if max(abs(nl), abs(nh), abs(sl), abs(sh)) < INF else [0, INF]
+            off = I.pure_int(st, ("mul", x, y), "mul", None, max(min(cands), 0), max(cands), ("mul", n, size)).aff
+    dt = call.dest_ty
+    out = []
+    s0 = st.copy()
+    s0.add_fact(off - L)                       # exhausted: k*size >= len
+    if not s0.dead:
+        out.append((s0, mk_none(dt)))
+    base = it.get("src")
+    for full in (True, False):
+        s1 = st.copy()
+        s1.add_fact(L - off - 1)
+        if full:
+            s1.add_fact(L - off - size)
+            ln = size
+        else:
+            s1.add_fact(off + size - L - 1)
+            ln = L - off
+        if s1.dead:
+            continue
+        I.write(s1, ref.place, it.with_(cur_off=off + size))
+        out.append((s1, mk_option(I, SliceV(ln, base, off), dt)))
+    return out
 
 
 # --------------------------------------------------------------- maps ------
